@@ -87,6 +87,32 @@ Theorem C14_location : forall s l, location_try_parse s = Ok (Some l) <-> LocSyn
 Proof. exact location_iff. Qed.
 Print Assumptions C14_location.
 
+(** The whole line: what the parser does with a line handed over by a reader is decided by the
+    documented grammar [LineSyn] (CmdSpec.v) — it parses to a command exactly when the grammar gives
+    the line that meaning, it is rejected with an error exactly when the grammar gives it none, it
+    never panics; the only other outcome is the process exit on the first word `sudo` (F15). *)
+Theorem C14_line : forall raw, nodelim raw ->
+  match parse_line raw with
+  | None => trim raw = []
+  | Some (Ok cmd) => LineSyn (trim raw) cmd
+  | Some (Err _) => forall cmd, ~ LineSyn (trim raw) cmd
+  | Some (ExitP code) => code = 0 /\ (exists ws, words (trim raw) = str "sudo" :: ws) /\
+                         forall cmd, ~ LineSyn (trim raw) cmd
+  | Some (Panic _) => False
+  end.
+Proof. exact parse_line_classified. Qed.
+Print Assumptions C14_line.
+
+Theorem C14_line_iff : forall line cmd, nodelim line -> (try_from line = Ok cmd <-> LineSyn line cmd).
+Proof. exact try_from_iff. Qed.
+Print Assumptions C14_line_iff.
+
+(** Exactly one command per line. *)
+Theorem C14_one_command : forall line cmd cmd', nodelim line ->
+  LineSyn line cmd -> LineSyn line cmd' -> cmd = cmd'.
+Proof. exact LineSyn_unambiguous. Qed.
+Print Assumptions C14_one_command.
+
 (** Non-vacuity. *)
 Example C14_nonvacuous_int :
   IntSyn (str "-0x1F") (-31) /\ IntSyn (str "#-12") (-12) /\ IntSyn (str "b+101") 5 /\
@@ -112,6 +138,16 @@ Proof.
   split; [vm_compute; reflexivity|].
   split; [exact swap_separators_renaming|]. split; [exact all_newlines_renaming|].
   split; [exact all_semicolons_renaming|]. reflexivity.
+Qed.
+
+Example C14_nonvacuous_line :
+  LineSyn (str "move  Foo+4   -0x1") (CMove (LMemory (MLabel (str "Foo") 4)) 65535) /\
+  LineSyn (str "s i") (CStepInto 1) /\ LineSyn (str "BREAK add ^-x10") (CBreakAdd (MPcOffset (-16))) /\
+  LineSyn (str "eval  add r1 r1  #1") (CEval (str "add r1 r1  #1")) /\
+  (forall cmd, ~ LineSyn (str "goto r1") cmd) /\ (forall cmd, ~ LineSyn (str "print 2147483648") cmd).
+Proof.
+  repeat split; try (apply C14_line_iff; [reflexivity|vm_compute; reflexivity]);
+    intros cmd H; apply C14_line_iff in H; try reflexivity; vm_compute in H; discriminate.
 Qed.
 
 (** The known finding (F15): the line `sudo` is outside the documented grammar and yet is not
